@@ -20,7 +20,9 @@ def _styled(r, case):
     """One run in eight declares its variables under other names (leading underscores, numbered
     names whose natural order is not their lexicographic order, non-ASCII names)."""
     if r.random() < 0.125:
-        return gen.rename_case(case, r.choice(gen.NAME_STYLES))
+        case = gen.rename_case(case, r.choice(gen.NAME_STYLES))
+    if r.random() < 0.15:
+        case = gen.numpyfy_case(case, r)  # some literals arrive as np.float64
     return case
 
 
@@ -96,11 +98,14 @@ def _c20_sweep(tier):
             # optyx's own evaluations of the compiled callables after the solver returned
             # (the post-solve feasibility check)
             sites += [{"site": "eval", "after_exit": j} for j in range(1, (3 if tier == "quick" else 7))]
+            # the k-th evaluation of the compiled Hessian / Jacobian / value callables during the solve
+            sites += [{"site": "eval", "of": of, "k": k} for of in ("compile_hessian", "compile_jacobian", "compile_expression")
+                      for k in ((1, 2) if tier == "quick" else (1, 2, 3, 5))]
         for site in sites:
             for exc in (gen.EXC_CLASSES if site["site"] not in ("cbi", "eval") or tier != "quick" else ["KeyboardInterrupt", "ValueError"]):
                 f = dict(site, exc=exc)
                 ops = sc["prefix"] + [gen.with_fault(sc["target"], f)] + sc["suffix"]
-                tag = f"sc{i - 1}:{evs[0].get('method')}:K{K}:{site['site']}{site.get('k', '')}j{site.get('j', '')}a{site.get('after_exit', '')}e{site.get('entry', 0)}:{exc}"
+                tag = f"sc{i - 1}:{evs[0].get('method')}:K{K}:{site['site']}{site.get('k', '')}j{site.get('j', '')}a{site.get('after_exit', '')}o{site.get('of', '')}e{site.get('entry', 0)}:{exc}"
                 yield tag, {"knobs": knobs, "ops": ops}
 
 
